@@ -2,17 +2,19 @@ from vlib import sets as S
 
 def flat_cfgs(tier):
     c = [S.SetCfg('flat', cmp='less'), S.SetCfg('flat', cmp='mod', uvec='small'), S.SetCfg('flat', cmp='stateful', uvec='fixed', cat='ntr'),
-         S.SetCfg('flat', cmp='greater', uvec='std'), S.SetCfg('flat', cmp='mix')]
+         S.SetCfg('flat', cmp='greater', uvec='std'), S.SetCfg('flat', cmp='mix'),
+         S.SetCfg('flat', cmp='transp', uvec='std')]
     if tier == 'thorough':
         c += [S.SetCfg('flat', cmp='stateful', uvec='amc'), S.SetCfg('flat', cmp='mod', uvec='std', cat='ntr'),
               S.SetCfg('flat', cmp='less', uvec='small', n=8, cat='ntr'), S.SetCfg('flat', cmp='greater', uvec='fixed'),
-              S.SetCfg('flat', cmp='mix', uvec='std', cat='ntr')]
+              S.SetCfg('flat', cmp='mix', uvec='std', cat='ntr'), S.SetCfg('flat', cmp='transp', uvec='small', cat='ntr')]
     return c
 
 def small_cfgs(tier):
     c = [S.SetCfg('small', 3, 'std', cmp='less'), S.SetCfg('small', 2, 'flat', cmp='mod'), S.SetCfg('small', 4, 'std', cmp='greater', cat='ntr'),
-         S.SetCfg('small', 1, 'flat', cmp='stateful'), S.SetCfg('small', 2, 'std', cmp='stateful'), S.SetCfg('small', 2, 'flat', cmp='mix')]
+         S.SetCfg('small', 1, 'flat', cmp='stateful'), S.SetCfg('small', 2, 'std', cmp='stateful'), S.SetCfg('small', 2, 'flat', cmp='mix'),
+         S.SetCfg('small', 5, 'flat', cmp='transp')]
     if tier == 'thorough':
         c += [S.SetCfg('small', 4, 'flat', cmp='stateful'), S.SetCfg('small', 5, 'flat', cmp='less', cat='ntr'),
-              S.SetCfg('small', 3, 'flat', cmp='greater'), S.SetCfg('small', 1, 'std', cmp='mod'), S.SetCfg('small', 3, 'std', cmp='mix')]
+              S.SetCfg('small', 3, 'flat', cmp='greater'), S.SetCfg('small', 1, 'std', cmp='mod'), S.SetCfg('small', 3, 'std', cmp='mix'), S.SetCfg('small', 6, 'std', cmp='transp')]
     return c
